@@ -139,12 +139,15 @@ def run_schedule(st0, schedule):
 init = make_initial()
 idx = list(range(K_UPD))
 schedules = [[list(p)] for p in itertools.permutations(idx)]
-schedules += [[[i] for i in p] for p in itertools.permutations(idx)]
-schedules += [[idx + [idx[0]]], [[idx[-1]]] + [idx]]
 if T == 'thorough':
-    # three updates: 6 batch orders + 6 one-by-one orders + repetition, plus two split deliveries (the full set of splits with every
-    # hash order ran for more than three hours and was cut back)
-    schedules += [[list(p[:1]), list(p[1:])] for p in list(itertools.permutations(idx))[:2]]
+    # three updates: every batch order, two one-by-one orders, repetition, one split delivery.  (All one-by-one orders and all
+    # splits - path pairs grow with the product of the two schedules' path counts - ran past three hours and were cut back.)
+    schedules += [[[i] for i in p] for p in (idx, idx[::-1])]
+    schedules += [[idx + [idx[0]]], [[idx[-1]]] + [idx]]
+    schedules += [[idx[:1], idx[1:]]]
+else:
+    schedules += [[[i] for i in p] for p in itertools.permutations(idx)]
+    schedules += [[idx + [idx[0]]], [[idx[-1]]] + [idx]]
 ck.declare('G3_merge_order_independent', f'{K_UPD} updates, {len(schedules)} delivery schedules (orders, one-by-one, repetition), 0..{ex.default_maxlen} prior members',
            'every schedule of the same update set yields the same (health, incarnation) per member')
 ck.declare('G3_no_tie', 'same, updates of one member never tie on (incarnation, timestamp) with different health', 'as G3')
